@@ -1,6 +1,6 @@
 // gen regenerates lean/DecimalModel/Gen/*.lean from the Go sources of db47h/decimal:
 // constants and tables (Tables.lean), straight-line word functions (WordOps.lean) and the
-// amd64 assembly (Asm.lean). It is run by every check; the theorems in lean/Proofs/Gen*.lean
+// amd64 assembly (Asm.lean from dec_arith_amd64.s, AsmBig.lean from arith_amd64.s). It is run by every check; the theorems in lean/Proofs/Gen*.lean
 // are stated over its output, so a change of the source shows up as a broken proof.
 package main
 
@@ -63,6 +63,26 @@ func load(repo string) (*pkgInfo, error) {
 	return p, nil
 }
 
+// usedBodyless: the functions of the package that are declared without a body (implemented in
+// assembly) and referred to from the (non-test, amd64 default build) Go files of the package.
+func usedBodyless(p *pkgInfo) map[string]bool {
+	bodyless := map[types.Object]string{}
+	for name, fd := range p.funcs {
+		if fd.Body == nil && fd.Recv == nil {
+			if obj := p.info.Defs[fd.Name]; obj != nil {
+				bodyless[obj] = name
+			}
+		}
+	}
+	used := map[string]bool{}
+	for _, obj := range p.info.Uses {
+		if n, ok := bodyless[obj]; ok {
+			used[n] = true
+		}
+	}
+	return used
+}
+
 func main() {
 	repo := flag.String("repo", "/repo", "repository root")
 	out := flag.String("out", "", "output directory (lean/DecimalModel/Gen)")
@@ -109,6 +129,12 @@ func main() {
 		status = 1
 	} else if asm != "" {
 		write("Asm.lean", asm)
+	}
+	if asm, err := genAsmBig(*repo, usedBodyless(p)); err != nil {
+		fmt.Println("asm (arith_amd64.s):", err)
+		status = 1
+	} else {
+		write("AsmBig.lean", asm)
 	}
 	if status == 0 {
 		fmt.Println("gen: ok")
